@@ -1070,7 +1070,7 @@ def _next_fn_of(fn):
             "key": "std::iter::Iterator::next", "dk": "AssocFn", "args": []}
 
 
-def _adaptor_loop(interp, fn, it_arg, st, site, frame, step, on_end):
+def _adaptor_loop(interp, fn, it_arg, st, site, frame, step, on_end, head=None):
     """-> list of (value, state), or None when the iterator cannot be stepped abstractly.
     step(item, state) -> [("yield", value, state) | ("continue", state)];  on_end(state) -> value"""
     nfn = _next_fn_of(fn)
@@ -1091,6 +1091,8 @@ def _adaptor_loop(interp, fn, it_arg, st, site, frame, step, on_end):
         cell = ("h", "adaptor-it", site, frame.depth)          # one cell per site: re-execution reproduces the same store
         st.heap[cell] = it_arg
         itref = Ref(cell, (), True)
+    # from_fn(f): next() is f(), whose result may be an opaque Option (`from_fn(|| calc.next_rto())`): either outcome
+    from_fn = re.match(r"^<std::iter::FromFn<", nfn["full"]) is not None
     results = []
     work = [st]
     visits = {}
@@ -1102,10 +1104,14 @@ def _adaptor_loop(interp, fn, it_arg, st, site, frame, step, on_end):
         rounds += 1
         if rounds > 400:
             return None
+        interp.widen_at_head(frame, ("adaptor", site), s)      # accumulators of the caller captured by the closures
         key = interp.state_key(frame, ("adaptor", site), s)
         if key in visits:
             continue
         visits[key] = 1
+        if head is not None:
+            s = s.fork()
+            s.effect(head)
         interp._ret_ty = next_ty          # an opaque next() must come back as an Option, whatever ran in between
         outs = interp.call_fn(nfn, [itref], s, "%s#next" % site, frame)
         cases = []
@@ -1113,7 +1119,7 @@ def _adaptor_loop(interp, fn, it_arg, st, site, frame, step, on_end):
             item = interp.concretize(item, s2)
             if isinstance(item, Adt) and item.name == OPTION:
                 cases.append((item, s2))
-            elif isinstance(item, Top) and getattr(interp, "adaptor_loops", False):
+            elif isinstance(item, Top) and (getattr(interp, "adaptor_loops", False) or from_fn):
                 cases.extend(opt_cases(interp, item, s2, "next@" + site))      # an opaque next(): either outcome
             else:
                 return None
@@ -1218,6 +1224,68 @@ def m_iter_fold_loop(interp, fn, args, st, site, frame):
             s_.heap.pop(acc, None)
     return res
 
+
+
+def m_from_fn(interp, fn, args, st, site, frame):
+    """std::iter::from_fn(f): an iterator whose next() is f()"""
+    if len(args) != 1:
+        return None
+    return [(Adt("FromFn", 0, (args[0],)), st)]
+
+
+def m_from_fn_next(interp, fn, args, st, site, frame):
+    it = deref(interp, args[0], st) if isinstance(args[0], Ref) else args[0]
+    it = interp.concretize(it, st)
+    if not (isinstance(it, Adt) and it.name == "FromFn"):
+        return None
+    return _call_fnlike(interp, it.fields[0], [], st, frame, site, "from_fn")
+
+
+def m_iter_find_map_loop(interp, fn, args, st, site, frame):
+    """find_map over a non-concrete iterator: the first Some the closure returns, None at exhaustion"""
+    if len(args) != 2 or (isinstance(args[0], Adt) and args[0].name.startswith("it:")):
+        return None
+
+    def step(item, s):
+        r = _call_fnlike(interp, args[1], [item], s, frame, site, "find_map")
+        if r is None:
+            return [None]
+        out = []
+        for (v, s2) in r:
+            for (o, s3) in opt_cases(interp, v, s2, "find_map@" + site):
+                out.append(("continue", s3) if o.variant == 0 else ("yield", some(o.fields[0]), s3))
+        return out
+    return _adaptor_loop(interp, fn, args[0], st, site, frame, step, lambda s: NONE)
+
+
+def m_from_fn_collect(interp, fn, args, st, site, frame):
+    """from_fn(f).collect::<Vec<T>>(): `let mut v = Vec::new(); while let Some(x) = f() { v.push(x) }; v` - run as that loop, with
+    the same call effects (Vec::new, Vec::push) and a loop-head effect per iteration, so that the rules see what they see in
+    the hand-written loop"""
+    full = fn.get("rfull") or fn.get("full") or ""
+    m = re.search(r"Iterator>::collect::<(std::vec::Vec<(.*)>)>$", full)
+    it = interp.concretize(args[0], st) if len(args) == 1 else None
+    if not m or not (isinstance(it, Adt) and it.name == "FromFn"):
+        return None
+    vec_ty = "std::vec::Vec::<%s>" % m.group(2)
+    acc = ("h", "collect-acc", site, frame.depth)
+    (v0, st), = interp.opaque_call(vec_ty + "::new", [], st, site + "#new", frame)
+    st.heap[acc] = v0
+    rt = getattr(interp, "_ret_ty", None)
+
+    def step(item, s):
+        interp._ret_ty = None
+        (_u, s2), = interp.opaque_call(vec_ty + "::push", [Ref(acc, (), True), item], s, site + "#push", frame)
+        return [("continue", s2)]
+    try:
+        res = _adaptor_loop(interp, fn, it, st, site, frame, step, lambda s: s.heap.get(acc, v0),
+                            head=("loop-head", frame.body.path, ("collect", site)))
+    finally:
+        interp._ret_ty = rt
+    if res is not None:
+        for (_v, s_) in res:
+            s_.heap.pop(acc, None)
+    return res
 
 
 def m_fn_call(interp, fn, args, st, site, frame):
@@ -1376,6 +1444,10 @@ BASE_MODELS = [
     (r"^std::iter::Iterator::fold$|as std::iter::Iterator>::fold(::<.*>)?$", m_iter_fold),
     (r"as std::iter::Iterator>::(fold|for_each)(::<.*>)?$", m_iter_fold_loop),
     (r"as std::iter::Iterator>::(find|any|all|position)(::<.*>)?$", m_iter_find_loop),
+    (r"as std::iter::Iterator>::find_map(::<.*>)?$", m_iter_find_map_loop),
+    (r"^<std::iter::FromFn<.*> as std::iter::Iterator>::collect::<std::vec::Vec<.*>>$", m_from_fn_collect),
+    (r"^std::iter::from_fn(::<.*>)?$|^core::iter::from_fn(::<.*>)?$", m_from_fn),
+    (r"^<std::iter::FromFn<.*> as std::iter::Iterator>::next$", m_from_fn_next),
     (r"^std::iter::Iterator::chain$|as std::iter::Iterator>::chain(::<.*>)?$", m_iter_chain),
     (r"^core::slice::<impl \[.*\]>::split_at(_mut)?$", m_split_at_concrete),
     (r"^core::slice::<impl \[.*\]>::len$", m_view_len),
